@@ -21,7 +21,7 @@ RULE = ("(a) system: each of the seven built-in trackers on the full lattice (bl
         "sums to 1.  Non-trivial (a): >= 20 state changes; distinct by digest.")
 ASSUMPTIONS = ["simulate_until_deadlock does not timestamp (S6): history clause only for max_time / max_customers plans",
                "an infinite observation window has no defined share for the final state; the unit oracle uses finite windows"]
-TECHNIQUE = "property-based testing: tracker state compared with state recomputed from the object graph after every event (blocking order from the monitor's own model); unit property of state_probabilities against exact rational integration"
+TECHNIQUE = 'property-based testing: tracker state compared with state recomputed from the object graph after every event (blocking order from the own model of the monitor), storyboard generator for a six-step customer history, tracker object reused by a second Simulation; unit property of state_probabilities against exact time shares'
 WALL = {"quick": 150, "thorough": 540}
 
 
